@@ -14,6 +14,7 @@ RULE = ("G_live witness graphs (+ the repository's own test topology) under both
         "checked for isolation (own nonce only, seq/time from 0, C03/C04 clauses); one evaluation = one episode; non-trivial = "
         "episode whose forced gate was reached or that ended with an immediate stop/next reset; distinct by spec digest x episode "
         "x ending")
+RULE += " Built later: ring family (a bursty fast node between the supervisor and a slow node) that makes a lost wake-up in a connection's selection queue a deadlock."
 RULE += " Built later: episodes start from the initial or from the previous episode's final graph state (carried over; only the seq/time-from-0 clauses apply then); one node with a 1 s start-up routine on the wall clock (episode time must not include it)."
 MIN_NONTRIVIAL = {"quick": 20, "thorough": 300}
 DECIDING = ["lifecycle_calls", "gates_reached", "episodes_checked"]
@@ -38,6 +39,22 @@ def gen_history(rnd, n_eps):
     return H
 
 
+def queue_diagnosis(g):
+    """Read-only look at the event queues of a quiescent graph (all workers parked): which connection has a selection whose
+    messages are all there but that nobody will process (lost wake-up), and how many scheduling tokens each node has left
+    (0 everywhere = the documented num_tokens limit). Diagnostic only; the verdict is the call that never returns."""
+    out = dict(ready_selection_not_processed=[], tokens={})
+    try:
+        for n, w in g._async_nodes.items():
+            out["tokens"][n] = len(w.q_tick) if w.q_tick is not None else None
+            for iname, i in w.inputs.items():
+                if i.q_expected_select and len(i.q_msgs) >= i.q_expected_select[0][1]:
+                    out["ready_selection_not_processed"].append(f"{iname}->{n}")
+    except Exception as e:  # noqa
+        out["error"] = repr(e)[:100]
+    return out
+
+
 def run_case(case):
     from rexmon import drive_async as D
     from rexmon import specs as S
@@ -50,6 +67,8 @@ def run_case(case):
         # isolation-only cases outside G_live: non-blocking graphs WITH computation overruns (drift, queued messages at stop);
         # a stall in run()/step() on such a graph is outside the supported class -> inconclusive, never a violation
         spec = S.rand_spec(case["spec_seed"], allow_blocking=False, allow_advance=False, overrun=True, n_max=4)
+    elif case.get("kind") == "cyc":
+        spec = S.rand_cyc(case["spec_seed"])  # rings with a bursty fast member (zero-message selections queued behind incomplete ones)
     else:
         spec = S.rand_live(case["spec_seed"], n_max=4)
     dg = S.digest(spec)
@@ -167,7 +186,8 @@ def run_case(case):
         if r is not None:
             hits += 1
             if hits >= 2:
-                deadlock = dict(op=state["op"], episode=state["ep"], blocked=r["blocked"], hook_events=r["count"], points=[p[1:] for p in mon.log[-12:]])
+                deadlock = dict(op=state["op"], episode=state["ep"], blocked=r["blocked"], hook_events=r["count"], points=[p[1:] for p in mon.log[-12:]],
+                                queues=queue_diagnosis(g))
                 break
         else:
             hits = 0
@@ -259,5 +279,6 @@ def plan(tier, seed):
     cases = [dict(name=f"sim-{i}", spec_seed=seed * 100057 + i, clock="sim", timeout=300) for i in range(n)]
     cases += [dict(name=f"wall-{i}", spec_seed=seed * 100057 + 5000 + i, clock="wall", timeout=300) for i in range(nw)]
     cases += [dict(name=f"iso-{i}", kind="iso", spec_seed=seed * 100057 + 7000 + i, clock="sim", timeout=300) for i in range(12 if tier == "quick" else 150)]
+    cases += [dict(name=f"cyc-{i}", kind="cyc", spec_seed=seed * 100057 + 11000 + i, clock="sim", timeout=300) for i in range(10 if tier == "quick" else 120)]
     cases += [dict(name=f"corpus-{i}", spec_seed=seed * 100057 + 9000 + i, corpus=i % 3, clock="sim", timeout=300) for i in range(3 if tier == "quick" else 12)]
     return cases
